@@ -353,7 +353,7 @@ def gen_streams(tier):
 
 PROPS['C09'] = dict(
     family='line', tags={'G': 'gen'},
-    theorems=['C09_line_round_trip', 'C09_line_not_exit_code', 'C09_regen_described', 'C09_regen_accepts_when_deterministic'],
+    theorems=['C09_line_round_trip', 'C09_line_not_exit_code', 'C09_generated_expectations_pass', 'C09_regen_described', 'C09_regen_accepts_when_deterministic'],
     streams=gen_streams,
     spec_kinds=['SPEC:C09'], corr_kinds=['DIFF:generated-lines'],
     case_format='G <m Markdown|c Cram> <a ascii|u unicode escaper> <0 create | 1 update with kept plain expectations | 2 update with quantified expectations> <hex shell expression> <exit code> <hex output>|<hex generated document>|<parse back: ok<n tests>/err/panic>|<1 = same shell expression>|<validate of the parsed test against the same output: ok/code/output>',
